@@ -930,3 +930,123 @@ def _fama_cards(ref, rng):
 
 SCENARIOS["uvl-peer"] = plan_uvl_peer
 SCENARIOS["third-party"] = plan_third_party
+
+
+# =========================================================================== caller threads
+
+THREAD_FOCUS = ["uvl", "json", "afm", "fide", "glencoe", "uvl-docs", "third", "writers", "ops"]
+
+
+def _switches(rng):
+    import math
+    out = []
+    for _ in range(rng.choice([1, 1, 2, 2, 3, 4, 6, 10])):
+        if rng.random() < 0.4:
+            delta = rng.randint(1, 40)
+        else:
+            delta = int(math.exp(rng.uniform(0.0, math.log(6000.0))))
+        out.append([max(delta, 1), rng.randint(0, 3)])
+    return out
+
+
+def plan_threads(focus, seed, tier):
+    """Two or three caller threads of one process use the library at the same time, each on its
+    own writer / reader / operation objects, models and paths (in `share` plans a model is
+    read by more than one lane).  The interleaving is decided by the plan (sched.Scheduler); the
+    oracle is the outcome of the same calls made one after the other."""
+    b = Builder(seed, "threads." + focus, tier)
+    rng = b.rng
+    b.segment(env=_seg_env(rng), disk_cfg={}, cwd=rng.choice(DIRS))
+    rt = focus in HAS_READER
+    frag = focus if rt else ("uvl" if focus == "uvl-docs" else "whole")
+    pool = gen.name_pool(rng, frag, rng.randint(5, 12))
+    models = []
+    docs = []      # (path, fmt)
+    if focus in ("uvl-docs", "third"):
+        for _ in range(rng.randint(3, 6)):
+            if focus == "uvl-docs":
+                kind, fmt, dfrag = "uvl", "uvl", "uvl"
+            else:
+                kind = rng.choice(["fide", "fama", "afm", "glencoe"])
+                fmt, dfrag, _f = PEER_FMT[kind]
+            dpool = gen.name_pool(rng, dfrag if dfrag != "plain" else "fide", rng.randint(5, 12))
+            cfg = gen.default_cfg(rng, dfrag, tier)
+            if rng.random() < 0.3:
+                cfg["size"] = "l"
+            if kind == "fama":
+                cfg["group_kinds"] = ["alternative", "or"]
+            ref = gen.gen_model(rng, dfrag, dpool, cfg)
+            if kind == "fama":
+                ref["ctcs"] = []
+            emit = {"uvl": peers.emit_uvl, "fide": peers.emit_fide, "fama": peers.emit_fama,
+                    "afm": peers.emit_afm, "glencoe": peers.emit_glencoe}[kind]
+            text, _info = emit(ref, rng)
+            k = rng.random()
+            state = "valid"
+            if k < 0.45:
+                if kind == "uvl":
+                    neg = peers.uvl_negative(text, rng)
+                    if neg is not None:
+                        text, state = neg[0], "invalid." + neg[1]
+                else:
+                    # damaged somewhere: what the reader makes of it alone is the reference
+                    cut = rng.randint(len(text) // 2, max(len(text) - 1, len(text) // 2))
+                    text, state = text[:cut], "cut"
+            path = b.path(fmt)
+            b.op(op="PUT", path=path, fmt=fmt, b64=_b64(text), prop=None,
+                 tags=["peer." + kind, "doc." + state], expect={"kind": "any"})
+            docs.append((path, fmt))
+    else:
+        for _ in range(rng.randint(2, 4)):
+            cfg = gen.default_cfg(rng, frag, tier)
+            if rng.random() < 0.25:
+                cfg["size"] = "l"
+            h = b.handle()
+            ref = gen.gen_model(rng, frag, pool, cfg)
+            b.op(op="NEW", m=h, ref=ref, style=rng.choice(["td", "bu"]), frag=frag)
+            models.append((h, ref))
+    for _c in range(rng.randint(2, 5 if tier == "quick" else 12)):
+        nl = rng.choice([2, 2, 2, 3])
+        share = bool(models) and focus in ("writers", "ops") and rng.random() < 0.3
+        lanes = []
+        avail = list(models)
+        rng.shuffle(avail)
+        for li in range(nl):
+            lane = []
+            if models:
+                if share:
+                    h, ref = rng.choice(models)
+                elif avail:
+                    h, ref = avail.pop()
+                else:
+                    break
+            for _k in range(rng.randint(1, 3)):
+                if focus in ("uvl-docs", "third"):
+                    path, fmt = rng.choice(docs)
+                    lane.append({"k": "R", "fmt": fmt, "path": path})
+                elif focus == "ops" or (focus == "writers" and rng.random() < 0.2):
+                    name = rng.choice(OPS + ["FMMetrics"])
+                    sub = {"k": "X", "name": name, "m": h}
+                    if name == "FMFeatureAncestors":
+                        sub["feature"] = rng.choice(rm.names(ref))
+                    lane.append(sub)
+                elif focus == "writers":
+                    fmt = rng.choice(ALL_WRITERS)
+                    lane.append({"k": "W", "fmt": fmt, "m": h, "path": b.path(fmt)})
+                else:
+                    fmt = focus if rng.random() < 0.8 else rng.choice(HAS_READER)
+                    path = b.path(fmt)
+                    lane.append({"k": "W", "fmt": fmt, "m": h, "path": path})
+                    lane.append({"k": "R", "fmt": fmt, "path": path, "own": True})
+            lanes.append(lane)
+        if len(lanes) < 2:
+            continue
+        b.op(op="CONC", lanes=lanes, switches=_switches(rng), first=rng.randrange(len(lanes)),
+             order=rng.choice(["seq_first", "seq_after"]), share=share)
+    b.plan["replicas"] = [{"env": {}, "disk_cfg": {}}]
+    return b.plan
+
+
+for _focus in THREAD_FOCUS:
+    SCENARIOS["threads." + _focus] = (lambda f: (lambda seed, tier: plan_threads(f, seed, tier)))(
+        _focus)
